@@ -79,11 +79,13 @@ func (q *queueMPSC) Push(value any) bool {
 	}
 	atomic.AddInt64(&q.length, 1)
 	old_head := (*itemMPSC)(atomic.SwapPointer((*unsafe.Pointer)(unsafe.Pointer(&q.head)), unsafe.Pointer(i)))
+	VerifPoint("mpsc.link", q)
 	atomic.StorePointer((*unsafe.Pointer)(unsafe.Pointer(&old_head.next)), unsafe.Pointer(i))
 	return true
 }
 
 func (q *queueLimitMPSC) Push(value any) bool {
+	VerifPoint("mpsc.limit", q)
 	if q.Len()+1 > q.limit {
 		if q.flush == false {
 			return false
@@ -97,6 +99,7 @@ func (q *queueLimitMPSC) Push(value any) bool {
 	}
 	atomic.AddInt64(&q.length, 1)
 	old_head := (*itemMPSC)(atomic.SwapPointer((*unsafe.Pointer)(unsafe.Pointer(&q.head)), unsafe.Pointer(i)))
+	VerifPoint("mpsc.link", q)
 	atomic.StorePointer((*unsafe.Pointer)(unsafe.Pointer(&old_head.next)), unsafe.Pointer(i))
 	return true
 }
